@@ -70,6 +70,18 @@ PROPS["C18"] = {
     ],
 }
 
+PROPS["C11"] = {
+    "technique": "differential property-based testing (rapid): fast hand-written decoders vs schema-driven bindnode+dag-cbor decoder on reference-encoded generated nodes and all fixture nodes",
+    "level_text": "Typed values of all seven kinds are generated field by field (optional fields absent/null/present, edge integers, lists of 0..5000 links, byte strings up to 64 KiB, several CID kinds), encoded with the reference encoder and decoded by both decoders; kind, scalars, byte strings, link sequences and every Has*/Get* accessor must agree, DecodeAny must return the generating kind and every other kind's decoder must reject the node. Exploration level.",
+    "level_note": "Trusted: ipld-prime bindnode + dag-cbor as the reference (encoder and decoder). An empty `next` list and an absent/null one are treated as the same observation (HasNext false, no links).",
+    "rule": ("rapid draws the kind and every field; non-trivial = node with >=1 optional field present and >=1 absent/null, or a list longer than 23 elements (2-byte CBOR length); fixtures unit: every section of the three fixture CARs; distinct by encoded bytes"),
+    "assumptions": ["reference decoder is the specification of 'schema-conforming'"],
+    "units": [
+        {"name": "generated", "pkg": "./iplddecoders", "run": "TestVfC11", "checks": T(60000, 3000000), "shards": T(8, 16), "timeout": T(600, 3000)},
+        {"name": "fixtures", "pkg": "./iplddecoders", "run": "TestVfC11Fixtures", "kind": "plain", "checks": 0, "shards": 1, "timeout": T(600, 3000)},
+    ],
+}
+
 
 # properties not (yet) claimed by a check; kept current by hand
 NOT_APPLICABLE = [
